@@ -234,6 +234,40 @@ pub fn seed(n: usize, nf: usize, targets: &str, labelling: &str, weights: bool, 
     }
 }
 
+/// Weight vectors with exact zeros / ties: "one_zero" (sample 0 has weight 0), "class_zero" (every
+/// sample whose first target is 1 has weight 0), "all_zero", "all_one"; others keep 0.5 + i.
+pub fn with_weight_pattern(mut m: Model, pattern: &str) -> Model {
+    let n = m.n();
+    if n == 0 {
+        return m;
+    }
+    let base = |i: usize| 0.5 + i as f32;
+    m.w = Some(
+        (0..n)
+            .map(|i| match pattern {
+                "one_zero" => {
+                    if i == 0 {
+                        0.0
+                    } else {
+                        base(i)
+                    }
+                }
+                "class_zero" => {
+                    if m.tgt[i][0] == 1 {
+                        0.0
+                    } else {
+                        base(i)
+                    }
+                }
+                "all_zero" => 0.0,
+                "all_one" => 1.0,
+                _ => base(i),
+            })
+            .collect(),
+    );
+    m
+}
+
 /// The action alphabet. `view: true` applies the operation to `.view()` of the dataset.
 #[derive(Clone, Debug, Serialize, Deserialize, PartialEq)]
 pub enum Act {
@@ -348,6 +382,17 @@ pub struct Obs {
     /// `label_count()` as reported by the value
     pub counts: Vec<BTreeMap<usize, usize>>,
     pub counted: bool,
+    /// what the label accessors of the value report (None: element type without labels):
+    /// `labels()` (method call syntax, as a user writes it; sorted), `label_set()` per target
+    /// column (sorted), `label_frequencies()`
+    pub acc: Option<LabelAccessors>,
+}
+
+#[derive(Clone, Debug, PartialEq)]
+pub struct LabelAccessors {
+    pub labels: Vec<usize>,
+    pub label_sets: Vec<Vec<usize>>,
+    pub freqs: BTreeMap<usize, f32>,
 }
 
 /// Element types of the targets: the model holds label codes, the real dataset holds `enc(code)`.
@@ -463,6 +508,7 @@ where
         tnames: ds.target_names().to_vec(),
         counts,
         counted: T::COUNTED,
+        acc: None,
     }
 }
 
@@ -474,7 +520,21 @@ where
     T: AsTargets<Elem = L> + Labels<Elem = L> + TKind,
 {
     let counts = ds.label_count().into_iter().map(|m| m.into_iter().map(|(k, v)| (k.code(), v)).collect()).collect();
-    observe_core(ds, Some(counts))
+    let mut o = observe_core(ds, Some(counts));
+    let mut labels: Vec<usize> = ds.labels().iter().map(|l| l.code()).collect();
+    labels.sort();
+    let label_sets = ds
+        .label_set()
+        .into_iter()
+        .map(|set| {
+            let mut v: Vec<usize> = set.iter().map(|l| l.code()).collect();
+            v.sort();
+            v
+        })
+        .collect();
+    let freqs = ds.label_frequencies().into_iter().map(|(k, v)| (k.code(), v)).collect();
+    o.acc = Some(LabelAccessors { labels, label_sets, freqs });
+    o
 }
 
 /// Observation of a dataset whose target elements are not labels (signed integers).
